@@ -131,3 +131,38 @@ Lemma mutual_cancel_no_deadlock_instance :
   reachable (init dead_progs 1 mut_bodies) mut_mid /\ all_paths_finish 40 mut_mid = true.
 Proof. split. apply run_reachable; constructor. vm_compute. reflexivity. Qed.
 
+
+(* ------------------------------------------------------------------ non-vacuity examples *)
+Definition ex_c : cfg := run (init wit_progs 1 wit_bodies) [0;0;0;0;1;1;1;1;0;0;0;0].
+Example shape_invariant_hyps_satisfiable :
+  reachable (init wit_progs 1 wit_bodies) ex_c /\ crashed ex_c = false /\
+  exists th, nth_error (threads ex_c) 0 = Some th /\ cur th = Some (1, 0) /\ proc th = Some 0.
+Proof. split. apply run_reachable; constructor. split. reflexivity. eexists. vm_compute. repeat split. Qed.
+Example generation_strictly_increases :
+  map gen (ids (run (init wit_progs 1 wit_bodies) wit_sched)) = [1%N].
+Proof. vm_compute. reflexivity. Qed.
+
+(* ------------------------------------------------------------------ planned, NOT PROVED (statements only)
+   The inductive invariants below were designed (DESIGN.md C17) but their preservation proofs are not
+   done; they are exercised only by the correspondence run + the oracle of props/c17.py. *)
+Definition holds (i : idx) (it : item) : nat :=
+  match it with
+  | IPostLock _ _ j _ _ _ | IPostSub _ j _ _ | IEndCb j _ | ISkipSub j _ => if Nat.eqb i j then 1 else 0
+  | IRun e | IRet e => if oidx_is (e_id e) i then 1 else 0
+  | _ => 0
+  end.
+Definition holders (i : idx) (c : cfg) : nat :=
+  fold_right (fun th acc => fold_right (fun it a => holds i it + a) 0 (todo th) + acc) 0 (threads c).
+(* count bits = posts in flight + dispatches between their fetch_add and fetch_sub *)
+Definition count_invariant_stmt : Prop := forall progs nids bds c i w,
+  reachable (init progs nids bds) c -> crashed c = false -> nth_error (ids c) i = Some w ->
+  cnt w = N.of_nat (holders i c).
+Definition runs_at_most_once_stmt : Prop := forall progs nids bds c u,
+  reachable (init progs nids bds) c -> length (filter (ev_eqb_run u) (log c)) <= 1.
+(* single-argument form / two-argument form outside a callback of the id *)
+Definition cancel_final_single_stmt : Prop := forall progs nids bds c u,
+  reachable (init progs nids bds) c -> crashed c = false ->
+  (forall i w, nth_error (ids c) i = Some w -> (gen w < gmod)%N) ->
+  In u (fin1 c) ->
+  (forall th, In th (threads c) -> cur th <> Some u) /\
+  forall sched, length (filter (ev_eqb_run u) (log (run c sched))) = length (filter (ev_eqb_run u) (log c)).
